@@ -225,6 +225,15 @@ Definition expand_home_tok (W : World) (t : token) : token :=
 Definition expand_home (W : World) (toks : tokens) : tokens := text_pass (home_sel W) toks.
 
 (* ------------------------------------------------------------------ expand_env *)
+(** the gate in front of the scan.  Since 8dc686a it is told whether the token was written inside double quotes:
+    there the alias-definition exemption (last test) does not apply -- a single quote is an ordinary character *)
+Definition env_in_tagged_token (t : str) (quoted : bool) : bool :=
+  if rx_search rx_env_special t then true
+  else if negb (rx_search rx_env_name t) then false
+  else if rx_search rx_env_sub1 t || rx_search rx_env_sub2 t || rx_search rx_env_sub3 t then false
+  else if quoted then true
+  else negb (rx_search rx_env_alias t).
+(** [fn env_in_token(token) { env_in_tagged_token(token, false) }], written out *)
 Definition env_in_token (t : str) : bool :=
   if rx_search rx_env_special t then true
   else if negb (rx_search rx_env_name t) then false
@@ -290,13 +299,13 @@ Definition expand_env_once (W : World) (t : str) : str := once_go W 0 t.
 Definition env_sel (W : World) (t : token) : option str :=
   match fst t with
   | TBq | TSq => None
-  | _ => if env_in_token (snd t) then Some (expand_env_once W (snd t)) else None
+  | _ => if env_in_tagged_token (snd t) (tag_eqb (fst t) TDq) then Some (expand_env_once W (snd t)) else None
   end.
 (** the same per token, spelled out *)
 Definition expand_env_tok (W : World) (t : token) : token :=
   match fst t with
   | TBq | TSq => t
-  | _ => if env_in_token (snd t) then (fst t, expand_env_once W (snd t)) else t
+  | _ => if env_in_tagged_token (snd t) (tag_eqb (fst t) TDq) then (fst t, expand_env_once W (snd t)) else t
   end.
 (** expand_env: the index buffer, transcribed (the counter runs over quoted tokens too) *)
 Definition expand_env (W : World) (toks : tokens) : tokens := text_pass (env_sel W) toks.
@@ -383,8 +392,8 @@ Definition int_at (s : str) : option (str * str) :=
   let (d, r') := span is_digit r in
   if is_empty d then None else Some (sign ++ d, r').
 
-(** the range pattern (rx_brace_range_src) after its opening brace *)
-Definition range_at (s : str) : option (str * str * option str) :=
+(** the range pattern after its opening brace, also returning what follows the closing brace *)
+Definition range_at (s : str) : option ((str * str * option str) * str) :=
   match int_at s with
   | None => None
   | Some (g1, r1) =>
@@ -394,30 +403,38 @@ Definition range_at (s : str) : option (str * str * option str) :=
           match int_at r2 with
           | None => None
           | Some (g2, r3) =>
-              if starts_with [125] r3 then Some (g1, g2, None)
-              else match strip_prefix [46; 46] r3 with
-                   | None => None
-                   | Some r4 =>
-                       let (d, r5) := span is_digit r4 in
-                       if starts_with [125] r5 then Some (g1, g2, if is_empty d then None else Some d)
-                       else None
-                   end
+              match strip_prefix [125] r3 with
+              | Some rest => Some ((g1, g2, None), rest)
+              | None =>
+                  match strip_prefix [46; 46] r3 with
+                  | None => None
+                  | Some r4 =>
+                      let (d, r5) := span is_digit r4 in
+                      match strip_prefix [125] r5 with
+                      | Some rest => Some ((g1, g2, if is_empty d then None else Some d), rest)
+                      | None => None
+                      end
+                  end
+              end
           end
       end
   end.
 
-Fixpoint find_range (s : str) : option (str * str * option str) :=
+(** leftmost match with its context: (text before the match, captures, text after the match) *)
+Fixpoint find_range (s : str) : option (str * (str * str * option str) * str) :=
   match s with
   | [] => None
   | c :: r =>
       match (if c =? 123 then range_at r else None) with
-      | Some x => Some x
-      | None => find_range r
+      | Some (caps, post) => Some ([], caps, post)
+      | None =>
+          match find_range r with
+          | Some (pre, caps, post) => Some (c :: pre, caps, post)
+          | None => None
+          end
       end
   end.
 
-(** [n = match n.checked_add(incr) { Some(x) => x, None => break }] : the loop ends at the i32 boundary;
-    debug and release builds behave alike, nothing can panic *)
 Fixpoint range_up (fuel : nat) (n e incr : Z) : res (list str) :=
   match fuel with
   | O => OutOfFuel
@@ -444,23 +461,23 @@ Definition range_list (a b incr : Z) : res (list str) :=
   if (a >? b)%Z then range_down (range_fuel a b incr) a b incr
   else range_up (range_fuel a b incr) a b incr.
 
+(** since f69a693 the text around the braces is kept; since 9bedc7c an operand that does not parse skips this token *)
 Definition range_sel (t : token) : res selr :=
   if negb (tag_is_empty (fst t)) || negb (rx_search rx_brace_range (snd t)) then Ok Skip
   else match find_range (snd t) with
        | None => Panic site_range_unwrap
-       | Some (g1, g2, g4) =>
+       | Some (pre, (g1, g2, g4), post) =>
            match parse_i32 g1, parse_i32 g2 with
            | Some a, Some b =>
                match (match g4 with None => Some 1%Z | Some d => parse_i32 d end) with
-               | None => Ok Abort
+               | None => Ok Skip                                   (* idx += 1; continue (9bedc7c) *)
                | Some i0 =>
                    let incr := if (i0 <=? 1)%Z then 1%Z else i0 in
-                   res_map (fun l => Repl (map retag l)) (range_list a b incr)
+                   res_map (fun l => Repl (map (fun x => retag (pre ++ x ++ post)) l)) (range_list a b incr)   (* f69a693: affixes kept *)
                end
-           | _, _ => Ok Abort
+           | _, _ => Ok Skip                                       (* idx += 1; continue *)
            end
        end.
-
 Definition expand_brace_range (toks : tokens) : res tokens := run_pass range_sel toks.
 
 (* ------------------------------------------------------------------ expand_glob *)
@@ -470,11 +487,40 @@ Definition needs_globbing (s : str) : bool := rx_search rx_needs_glob s.
 Definition basename (p : str) : str :=
   match split_last 47 p with Some (_, b) => b | None => p end.
 
-Definition glob_keep (show_hidden : bool) (p : str) : bool :=
+(** since 7572cd1: a path is also dropped when a DIRECTORY component begins with a dot while the pattern
+    component at the same distance from the end does not (a star never matches a leading dot) *)
+Fixpoint split_on (c0 : char) (s : str) : list str :=
+  match s with
+  | [] => [[]]
+  | c :: r =>
+      if c =? c0 then [] :: split_on c0 r
+      else match split_on c0 r with
+           | x :: l => (c :: x) :: l
+           | [] => [[c]]
+           end
+  end.
+
+(** directory components from the last one outwards: [path.rsplit('/').skip(1)] *)
+Definition dirs_rev (p : str) : list str := tl (rev (split_on 47 p)).
+
+Fixpoint hidden_zip (pc pp : list str) : bool :=
+  match pc with
+  | [] => false
+  | comp :: r =>
+      (starts_with [46] comp && negb (str_eqb comp [46]) && negb (str_eqb comp [46; 46])
+       && negb (starts_with [46] (hd [] pp)))
+      || hidden_zip r (tl pp)
+  end.
+Definition hidden_dir_matched (pattern path : str) : bool := hidden_zip (dirs_rev path) (dirs_rev pattern).
+
+(** the tests on the last component: dot, dot-dot, and hidden names unless the pattern's last component starts with dot-star *)
+Definition glob_keep_last (show_hidden : bool) (p : str) : bool :=
   let b := basename p in
   if str_eqb b [46; 46] || str_eqb b [46] then false
   else if starts_with [46] b && negb show_hidden then false
   else true.
+Definition glob_keep (pattern : str) (show_hidden : bool) (p : str) : bool :=
+  glob_keep_last show_hidden p && negb (hidden_dir_matched pattern p).
 
 Definition glob_one (W : World) (item : str) : option (list str) :=
   if negb (contains_char 42 item) || starts_with [39] (trim item) || starts_with [34] (trim item)
@@ -484,7 +530,7 @@ Definition glob_one (W : World) (item : str) : option (list str) :=
     match glob W item with
     | None => None
     | Some paths =>
-        let r := filter (glob_keep show_hidden) paths in
+        let r := filter (glob_keep item show_hidden) paths in
         Some (if is_empty r then [item] else r)
     end.
 
@@ -607,40 +653,36 @@ Definition dot_split (s : str) : option (str * str * str) :=
   | None => None
   end.
 
-(** the inner [loop] for an unquoted / double-quoted token with embedded backquotes;
-    a substitution that fails to plan leaves [_output] at its PREVIOUS value *)
-Fixpoint dot_loop (fuel : nat) (W : World) (tok item output : str) (log : list str) : res (str * list str) :=
+(** the output of an inner line; a line that does not plan gives the empty string (85ca576, 8a189aa) *)
+Definition oracle_text (W : World) (cmd : str) : str := match run_capture W cmd with Some o => o | None => [] end.
+
+(** the inner [loop] for an unquoted / double-quoted token with embedded backquotes, and the first loop of
+    do_command_substitution_for_dot *)
+Fixpoint dot_loop (fuel : nat) (W : World) (tok item : str) (log : list str) : res (str * list str) :=
   match fuel with
   | O => OutOfFuel
   | S f =>
       match dot_split tok with
       | None => Ok (if is_empty tok then item else item ++ tok, log)
       | Some (h, c, t) =>
-          let output' := match run_capture W c with Some out => trim out | None => output end in
-          let item' := item ++ h ++ output' in
-          if is_empty t then Ok (item', log ++ [c]) else dot_loop f W t item' output' (log ++ [c])
+          let item' := item ++ h ++ trim (oracle_text W c) in
+          if is_empty t then Ok (item', log ++ [c]) else dot_loop f W t item' (log ++ [c])
       end
   end.
 
-(** first loop of do_command_substitution_for_dot; note the [continue] without [idx += 1]
-    when a whole-token backquote command fails to plan *)
 Fixpoint dot_collect (W : World) (toks : tokens) (idx : nat) (log : list str)
   : res (list (nat * str) * list str) :=
   match toks with
   | [] => Ok ([], log)
   | (tg, text) :: r =>
       match tg with
-      | TBq =>
-          match run_capture W text with
-          | None => dot_collect W r idx (log ++ [text])
-          | Some out => res_map (fun x => ((idx, trim out) :: fst x, snd x))
-                                (dot_collect W r (S idx) (log ++ [text]))
-          end
+      | TBq => res_map (fun x => ((idx, trim (oracle_text W text)) :: fst x, snd x))
+                       (dot_collect W r (S idx) (log ++ [text]))
       | TDq | TNone =>
           match dot_split text with
           | None => dot_collect W r (S idx) log
           | Some _ =>
-              bind (dot_loop (S (length text)) W text [] [] log) (fun y =>
+              bind (dot_loop (S (length text)) W text [] log) (fun y =>
               res_map (fun x => ((idx, fst y) :: fst x, snd x)) (dot_collect W r (S idx) (snd y)))
           end
       | _ => dot_collect W r (S idx) log
